@@ -118,6 +118,7 @@ def run(ctx):
         plan.append(("dot", (-1, 0, 1, 2), 1, (False, True)))
         plan.append(("matvec", (0, 1, 2), 0, (False,)))
         plan.append(("matvec-m3", (-1, 0, 1), 0, (False,)))
+        plan.append(("sum3", (0, 1), 2, (False,)))
         plan.append(("colsum-n3", (-1, 0, 1), 0, (False,)))
     else:
         small = ("dot", "elem", "rowsum", "sumall", "colsum", "outer")
@@ -125,7 +126,8 @@ def run(ctx):
         plan += [("elem2d", (0, 1, 2), 2, (False, True)), ("matvec", (-1, 0, 1, 2), 2, (False, True)),
                  ("elem3", (0, 1, 2), 1, (False, True)), ("matmul", (0, 1), 2, (False, True)),
                  ("matmul", (0, 1, 2), 1, (False,)), ("matmul-scale", (0, 1), 1, (False, True)),
-                 ("matvec-m3", (-1, 0, 1, 2), 1, (False,)), ("colsum-n3", (-1, 0, 1, 2), 1, (False,))]
+                 ("matvec-m3", (-1, 0, 1, 2), 1, (False,)), ("colsum-n3", (-1, 0, 1, 2), 1, (False,)),
+                 ("sum3", (0, 1), 2, (False, True)), ("ttv", (0, 1), 2, (False,))]
     ctx.bounds = {"plan": [dict(expr=n, entries=list(a), tile_mode=t, inner_tile_loop_directly_below=list(p))
                            for n, a, t, p in plan],
                   "tile_mode": "0 = untiled, 1 = every tile size of every single variable, 2 = also every pair of variables"}
